@@ -147,49 +147,110 @@ def rule_recurse(ctx, R):
                       "the functions %s recurse over client-built data with no depth limit: a deeply nested value (60000 x `*1\\r\\n`, or a Lua table that contains itself) overflows the stack and kills the process" % sorted(f.split("::")[-1] for f in comp), ctx.prog.bodies[comp[0]].loc())
 
 
+RUN_RX = r"^mlua::Chunk::<'_>::(eval|exec|call)(::<.*>)?$|^mlua::Chunk::(eval|exec|call)(::<.*>)?$|^mlua::Function::call(::<.*>)?$"
+
+
+def script_run_bodies(ctx):
+    """(body, run blocks) for eval and the closures / new helpers it runs the chunk in"""
+    ev0 = ctx.prog.need("storage::lua_engine::LuaEngine::eval")
+    out = []
+    for evb in shared.closure_tree(ctx, ev0):
+        runs = [i for i, t in evb.calls() if re.search(RUN_RX, t["f"] or "")]
+        if runs:
+            out.append((evb, runs))
+    return ev0, out
+
+
 def rule_hang(ctx, R):
     """scripts run under an execution bound: before the chunk is run, eval installs an
     instruction hook (or interrupt) whose callback can return Err (that is what stops the VM),
     decided by a clock or counter comparison; a memory limit bounds allocation but not time."""
-    ev = ctx.prog.need("storage::lua_engine::LuaEngine::eval")
-    runs = [i for i, t in ev.calls() if re.search(r"^mlua::Chunk::<'_>::(eval|exec|call)(::<.*>)?$|^mlua::Chunk::(eval|exec|call)(::<.*>)?$|^mlua::Function::call(::<.*>)?$", t["f"] or "")]
-    R.floor("script_run_sites", len(runs))
-    hooks = []
-    # hook installed in eval itself or in a function eval calls before the run (context set-up)
-    cand = [(ev, i, t) for i, t in ev.calls()]
-    for i, t in ev.calls():
-        c = callee(t)
-        if c in ctx.prog.bodies and c.startswith("storage::lua_engine::"):
-            cb = ctx.prog.bodies[c]
-            cand += [(cb, j, tj) for j, tj in cb.calls() if all(cfg.dominates(ev, i, r) for r in runs)]
-    mem = False
-    for fb, i, t in cand:
-        f = t["f"] or ""
-        if re.search(r"mlua::.*::set_memory_limit$", f):
-            mem = True
-        if re.search(r"mlua::.*::(set_hook|set_interrupt|set_global_hook)(::<.*>)?$", f):
-            can_abort = False; timed = False
-            for cl in t.get("clos") or []:
-                cb = ctx.prog.bodies.get(cl)
-                if cb is None:
-                    continue
-                for bb in cb.bbs:
-                    for st in bb["s"]:
-                        if st["k"] == "=" and st["r"]["k"] == "agg" and st["r"]["a"].endswith("Result::Err"):
-                            can_abort = True
-                for j, tj in cb.calls():
-                    if re.search(r"Instant::now$|Instant::elapsed$|PartialOrd.*>::(ge|gt|lt|le)$|fetch_add$", tj["f"] or ""):
-                        timed = True
-                for bb in cb.bbs:
-                    for st in bb["s"]:
-                        if st["k"] == "=" and st["r"]["k"] == "bin" and st["r"]["op"] in ("Ge", "Gt", "Lt", "Le"):
+    ev0, rb = script_run_bodies(ctx)
+    R.floor("script_run_sites", sum(len(r) for _, r in rb))
+    for ev, runs in rb:
+        hooks = []
+        # hook installed in eval itself or in a function eval calls before the run (context set-up)
+        cand = [(ev, i, t) for i, t in ev.calls()]
+        for i, t in ev.calls():
+            c = callee(t)
+            if c in ctx.prog.bodies and c.startswith("storage::lua_engine::"):
+                cb = ctx.prog.bodies[c]
+                cand += [(cb, j, tj) for j, tj in cb.calls() if all(cfg.dominates(ev, i, r) for r in runs)]
+        mem = False
+        for fb, i, t in cand:
+            f = t["f"] or ""
+            if re.search(r"mlua::.*::set_memory_limit$", f):
+                mem = True
+            if re.search(r"mlua::.*::(set_hook|set_interrupt|set_global_hook)(::<.*>)?$", f):
+                can_abort = False; timed = False
+                for cl in t.get("clos") or []:
+                    cb = ctx.prog.bodies.get(cl)
+                    if cb is None:
+                        continue
+                    for bb in cb.bbs:
+                        for st in bb["s"]:
+                            if st["k"] == "=" and st["r"]["k"] == "agg" and st["r"]["a"].endswith("Result::Err"):
+                                can_abort = True
+                    for j, tj in cb.calls():
+                        if re.search(r"Instant::now$|Instant::elapsed$|PartialOrd.*>::(ge|gt|lt|le)$|fetch_add$", tj["f"] or ""):
                             timed = True
-            dom = fb is not ev or all(cfg.dominates(ev, i, r) for r in runs)
-            hooks.append({"in": fb.fn.split("::")[-1], "callback_can_abort": can_abort, "decides_by_clock_or_counter": timed, "before_every_run": dom})
-    ok = any(h["callback_can_abort"] and h["decides_by_clock_or_counter"] and h["before_every_run"] for h in hooks)
-    R.inst(ev.fn, "script-bound", {"run_sites": len(runs), "hooks": hooks, "memory_limit": mem})
-    if not ok:
-        R.finding(ev.fn, "script-unbounded", "scripts run with no instruction hook / interrupt that can stop them: `EVAL \"while true do end\" 0` occupies the single command thread forever (no client is answered any more)", ev.loc())
+                    for bb in cb.bbs:
+                        for st in bb["s"]:
+                            if st["k"] == "=" and st["r"]["k"] == "bin" and st["r"]["op"] in ("Ge", "Gt", "Lt", "Le"):
+                                timed = True
+                dom = fb is not ev or all(cfg.dominates(ev, i, r) for r in runs)
+                hooks.append({"in": fb.fn.split("::")[-1], "callback_can_abort": can_abort, "decides_by_clock_or_counter": timed, "before_every_run": dom})
+        ok = any(h["callback_can_abort"] and h["decides_by_clock_or_counter"] and h["before_every_run"] for h in hooks)
+        R.inst(ev0.fn, "script-bound", {"run_sites": len(runs), "hooks": hooks, "memory_limit": mem})
+        if not ok:
+            R.finding(ev0.fn, "script-unbounded", "scripts run with no instruction hook / interrupt that can stop them: `EVAL \"while true do end\" 0` occupies the single command thread forever (no client is answered any more)", ev.loc())
+
+
+def rule_lua_ctx_fresh(ctx, R):
+    """a script's redis.call / redis.pcall act on the database of the connection that runs the
+    script: the functions registered in the Lua state capture the caller's database index by
+    value, so the state a chunk runs in is built for THIS call -- every path to the run passes the
+    context constructor (the function whose closures capture `LuaCommandContext.db_index`) in the
+    same invocation.  A state kept across calls (built `if none yet`) keeps the database of the
+    first script ever run."""
+    ev0, rb = script_run_bodies(ctx)
+    DBF = "storage::lua_engine::LuaCommandContext.db_index"
+    ctxfns = set()
+    for fn, b in ctx.prog.bodies.items():
+        if not fn.startswith("storage::lua_engine::") or b.kind == "Closure" or "::tests::" in fn:
+            continue
+        reads_db = any(isinstance(e, dict) and e.get("f") == DBF for bb in b.bbs for st in bb["s"] if st["k"] == "=" and st["r"]["k"] in ("use", "ref") for e in (st["r"].get("p") or op_place(st["r"].get("o")) or {"p": []})["p"]) if False else False
+        for bb in b.bbs:
+            for st in bb["s"]:
+                if st["k"] != "=":
+                    continue
+                r = st["r"]
+                pl = r.get("p") if r["k"] in ("ref", "discr") else (op_place(r["o"]) if r["k"] in ("use", "cast") and not op_is_const(r["o"]) else None)
+                if pl and any(isinstance(e, dict) and e.get("f") == DBF for e in pl["p"]):
+                    reads_db = True
+        registers = any(re.search(r"mlua::Lua::create_function(::<.*>)?$", t["f"] or "") for _, _, t in shared.deep_calls(ctx, b))
+        if reads_db and registers:
+            ctxfns.add(fn)
+    R.floor("context_constructors", len(ctxfns))
+    n = 0
+    for ev, runs in rb:
+        mk = [i for i, t in ev.calls() if callee(t) in ctxfns]
+        for r_ in runs:
+            n += 1
+            ok = any(cfg.dominates(ev, i, r_) for i in mk)
+            if not ok and ev.kind == "Closure" and not mk:
+                # the state is built in the enclosing function and handed in: the call driving
+                # this closure must be dominated by the constructor there
+                par = ctx.prog.bodies.get(ev.encl)
+                if par is not None:
+                    drive = [i for i, t in par.calls() if ev.fn in (t.get("clos") or ())]
+                    pmk = [i for i, t in par.calls() if callee(t) in ctxfns]
+                    ok = bool(drive) and all(any(cfg.dominates(par, m, d) for m in pmk) for d in drive)
+            R.inst(ev0.fn, "script-state", {"run_at": ev.loc(r_), "context_built_in_this_invocation_on_every_path": ok, "constructors": sorted(x.split("::")[-1] for x in ctxfns)})
+            if not ok:
+                R.finding(ev0.fn, "script-state:not-built-for-this-call",
+                          "the chunk can run (line %d) in a Lua state that was not built in this invocation: redis.call / redis.pcall captured the database index when the state was built, so the script acts on the database of whichever connection ran the first script" % ev.bb_line(r_), ev.loc(r_))
+    R.floor("script_runs_checked", n)
 
 
 # ---------------------------------------------------------------------------------------
